@@ -4,6 +4,7 @@ mod util;
 mod backoff;
 mod childrun;
 mod codec;
+mod topic;
 mod wire;
 
 use util::{Cfg, Tier};
@@ -43,6 +44,7 @@ fn main() {
         "backoff" => backoff::run(&cfg),
         "wire" => wire::run(&cfg),
         "codec" => codec::run(&cfg),
+        "topic" => topic::run(&cfg),
         other => { eprintln!("unknown suite {other}"); std::process::exit(2); }
     }
 }
